@@ -112,6 +112,9 @@ func (p *projector) ext(k []byte, v []byte) bool {
 	if strings.HasPrefix(ks, "d_") {
 		return p.domain(ks, v)
 	}
+	if strings.HasPrefix(ks, "extBid") {
+		return p.bid(ks, v)
+	}
 	if strings.HasPrefix(ks, "keeper_") || strings.HasPrefix(ks, "contracts") || strings.HasPrefix(ks, "evm") {
 		return p.evm(k, v)
 	}
